@@ -197,6 +197,19 @@ def main():
                 rep["anchor_checks"] += 1
                 if not all(rel(g_, par["POP"] / 1e9) for g_ in np.asarray(gv, dtype=float)):
                     bad("anchor:extracted:%s" % nm, dict(got=[float(g_) for g_ in np.asarray(gv, dtype=float)], want=par["POP"] / 1e9, par=par))
+            # outdoor crops (their fat and protein are LP variables of their own): a nutrient that is counted converts to the population, one
+            # that is not counted is reported as nothing - under each of the four settings of the two switches
+            for inc_f_ in (False, True):
+                for inc_p_ in (False, True):
+                    ex_.constants["inputs"] = dict(INCLUDE_FAT=inc_f_, INCLUDE_PROTEIN=inc_p_)
+                    fv_ = [NS_(varValue=req.fat), NS_(varValue=req.fat)]
+                    pv_ = [NS_(varValue=req.protein), NS_(varValue=req.protein)]
+                    oc_ = ex_.create_food_object_from_fat_protein_variables(solved, fv_, pv_)
+                    for nm, gv, w_ in (("kcals", oc_.kcals, par["POP"] / 1e9), ("fat", oc_.fat, par["POP"] / 1e9 if inc_f_ else 0.0),
+                                      ("protein", oc_.protein, par["POP"] / 1e9 if inc_p_ else 0.0)):
+                        rep["anchor_checks"] += 1
+                        if not all((rel(g_, w_) if w_ else float(g_) == 0.0) for g_ in np.asarray(gv, dtype=float)):
+                            bad("anchor:extracted:crops:%s" % nm, dict(got=[float(g_) for g_ in np.asarray(gv, dtype=float)], want=w_, fat=inc_f_, protein=inc_p_, par=par))
             if list(ex_.milk.units) != ["billion people fed each month"] * 3:
                 bad("anchor:extracted_milk:units", dict(units=list(ex_.milk.units)))
         except BaseException as ex:  # noqa
